@@ -217,6 +217,17 @@ func CloneVolumeAt(src string, ts uint64, dst string) {
 	volMu.Unlock()
 }
 
+// AliasVolume makes dst name the very same volume as src (full version history kept).
+func AliasVolume(src, dst string) {
+	v := getVolume(src, false)
+	if v == nil {
+		return
+	}
+	volMu.Lock()
+	volumes[filepath.Clean(dst)] = v
+	volMu.Unlock()
+}
+
 // DumpVolume returns the live key/value pairs of a volume.
 func DumpVolume(path string) map[string][]byte {
 	out := map[string][]byte{}
